@@ -430,6 +430,8 @@ def run(chk):
     c12_res.part_res(chk)
     import c12_attr
     c12_attr.part_attr(chk, drv, runner)
+    import c12_prune
+    c12_prune.part_prune(chk, drv, runner)
 
 
 def replay(chk, rep):
